@@ -352,7 +352,7 @@ func (m *uiModel) apply(action string) bool {
 var c09Actions = []string{
 	"beginning-of-line", "end-of-line", "backward-char", "forward-char", "backward-word", "forward-word",
 	"delete-char", "backward-delete-char", "kill-word", "backward-kill-word", "unix-word-rubout", "unix-line-discard",
-	"kill-line", "yank", "clear-query", "change-query(ab c)", "change-query(f)", "put(e-d)", "put( )",
+	"kill-line", "yank", "clear-query", "change-query(ab c)", "change-query(f)", "put(e-d)", "put( )", "change-query(héllo wörld ab)", "put(日é)",
 	"up", "down", "first", "last", "pos(3)", "pos(-2)", "pos(0)", "page-up", "page-down", "half-page-up", "half-page-down",
 	"select", "deselect", "toggle", "toggle+down", "toggle+up", "toggle-down", "toggle-up", "toggle-in", "toggle-out", "select-all", "deselect-all",
 	"toggle-all", "clear-selection", "change-multi(2)", "change-multi", "change-multi(0)",
@@ -427,7 +427,7 @@ func genC09Plan(r *zsim.Rng) *sysPlan {
 	for i := 0; i < nev; i++ {
 		ev := sysEvent{Kind: "keys", DelayMs: []int{0, 1, 5, 30}[r.Intn(4)]}
 		if r.Chance(1, 4) {
-			ch := "abcdef  -_/1"[r.Intn(12)]
+			ch := []rune("abcdef  -_/1éö日")[r.Intn(15)]
 			ev.Keys = string(ch)
 			if ch == ' ' {
 				ev.Keys = "space"
